@@ -276,6 +276,11 @@ func (g *c17Gen) render(pieces []string, sloppy bool) string {
 				g.stats.Inc("gen.trivia.blockcomment")
 			case 5:
 				b.WriteString(" /**/ ")
+			case 6:
+				b.WriteString(" # comment ended by a lone CR\r")
+				g.stats.Inc("gen.trivia.linecomment-cr")
+			case 7:
+				b.WriteString("\r")
 			default:
 				b.WriteString(" ")
 			}
@@ -353,7 +358,7 @@ func (g *c17Gen) bytes() string {
 		}
 		g.stats.Inc("bytes.uniform")
 	case 1: // the lexer's special characters
-		const alpha = "a1 \n\t{}[]():,!->&&#/*\\\"'-."
+		const alpha = "a1 \n\r\t{}[]():,!->&&#/*\\\"'-."
 		for i := range b {
 			b[i] = alpha[g.r.Intn(len(alpha))]
 		}
